@@ -370,7 +370,7 @@ def run(ctx):
         "a connection fault falls into one of the classes q / f / p: the request reaches the daemon incompletely, or completely with the reply undeliverable, or the "
         "reply reaches the client incompletely (recv_all_or_nothing proves the all-or-nothing reception for the model; the proxy exercises it on the code at the listed offsets)",
         "the daemon's replies are shorter than 4 GiB (hypothesis of exhausted_is_socket_error; follows from the 1 MiB request gate for real primitives)",
-        "the client process ignores SIGPIPE (libmunge does not arrange this itself) and nanosleep / connect succeed; connect() failures and sleep failures leave the loop and are not modelled",
+        "the client process ignores SIGPIPE (libmunge does not arrange this itself) and nanosleep succeeds; connect() refusals (ECONNREFUSED / EAGAIN, retried inside _m_msg_client_connect) are exercised on the implementation only (stream connect-backoff), the model has no connect step",
         "PrimLaws for OpenSSL/zlib/bzlib are validated by the real-primitive streams, not proved",
         "one env (time, peer identity) per libmunge call: the attempts of one call fall into the same second"]
     if ctx.replay_in:
@@ -396,12 +396,80 @@ def run(ctx):
                     ctx.distinct(op)
         ctx.sample({"stream": name, "transaction": [o[:160] for o, _ in txs[len(txs) // 3]]})
         run_stream(ctx, name, txs, h, d, "retry (%s primitives)" % name.split("-")[1])
+        connect_backoff(ctx, name, h, cases, creds)
     if htoy and drv:
         ops = kern_ops()
         diff, _ = cbuild.diff_stream(ctx, "retry-kernels", ops, [htoy, ctx.work], [drv])
         ctx.dist("kernel_validation", len(ops))
         ctx.obligation("correspondence", "translation validation: dec_check_retry / enc_check_retry / dec_validate_replay, %d inputs" % len(ops),
                        diff is None, "" if diff is None else "op `%s`: impl=%s model=%s" % (diff["op"], diff["impl"][:300], diff["model"][:300]))
+
+
+def connect_backoff(ctx, name, h, cases, creds):
+    """connect()-level back-off (a full listen queue: ECONNREFUSED / EAGAIN before the connection is made) is not a re-send:
+    the same call with and without refused connects must give the same result, the same number of connections and the same
+    retry byte per connection (= the index of the connection).  Ten refusals in a row end the call with a socket error and
+    nothing sent: the credential stays decodable.  Implementation only (the model has no connect step), judged by the oracle."""
+    r = ctx.rng
+    vecs = [[1], [3], [9], [0, 2], [2, 0, 1], [1, 1, 1, 1, 1], [9, 9, 9, 9, 9]]
+    ops, meta = [], []
+    for ci, (e, cred) in enumerate(list(zip(cases, creds))[:3]):
+        qb, pb = dec_req_bounds(cred), dec_rsp_bounds(e)
+        for seq in ([], ["f"], ["q%d" % pick(r, qb), "p%d" % pick(r, pb)], ["f", "q7", "f", "p13"], ["f", "f", "f", "f", "f"]):
+            s = sched_str(seq)
+            for vec in (vecs if ci == 0 else r.sample(vecs, 3)):
+                cerr = r.choice([111, 11])
+                tail = " crefuse=%s cerr=%d" % (",".join(map(str, vec)), cerr)
+                for base in (dec_line(e, cred, s), enc_line(e, s)):
+                    if base.startswith("retry dec"):
+                        ops.append("retry reset"); meta.append(None)
+                    ops.append(base); meta.append(("base", len(seq)))
+                    if base.startswith("retry dec"):
+                        ops.append("retry reset"); meta.append(None)
+                    ops.append(base + tail); meta.append(("refused", len(ops) - (3 if base.startswith("retry dec") else 2), vec))
+        # ten refusals: the call fails before anything is sent; the credential is not spent
+        ops.append("retry reset"); meta.append(None)
+        ops.append(dec_line(e, cred, "-") + " crefuse=10"); meta.append(("exhausted",))
+        ops.append(dec_line(e, cred, "-")); meta.append(("probe", e))
+    rc, out, err = cbuild.run_lines([h, ctx.work], ops)
+    ctx.count(len(ops)); ctx.dist("connect_backoff", len([m for m in meta if m and m[0] == "refused"]))
+    for o, m in zip(ops, meta):
+        if m and m[0] == "refused":
+            ctx.distinct(o)
+    bad = None
+    strip = lambda l: {k: v for k, v in fields(l).items() if k not in ("sl", "cf")}
+    for i, (m, l) in enumerate(zip(meta, out[:len(ops)])):
+        if not m or bad:
+            continue
+        try:
+            kv = fields(l)
+            if m[0] == "refused":
+                a, b = strip(out[m[1]]), strip(l)
+                if a != b:
+                    d = [k for k in a if a.get(k) != b.get(k)]
+                    bad = (i, "refused connects %s changed the call's %s: %s -> %s (connect back-off is not a re-send)" % (
+                        m[2], ",".join(d), ",".join(str(a.get(k))[:40] for k in d), ",".join(str(b.get(k))[:40] for k in d)))
+                tr = kv["tr"].split(",") if kv["tr"] != "-" else []
+                for j, t in enumerate(tr):
+                    if t != "-" and int(t) != j:
+                        bad = bad or (i, "connection %d carried retry byte %s after refused connects %s (required %d)" % (j + 1, t, m[2], j))
+            elif m[0] == "exhausted":
+                if int(kv["err"]) != 6 or int(kv["n"]) != 0:
+                    bad = (i, "ten refused connects: err=%s after %s connections (required EMUNGE_SOCKET, nothing sent)" % (kv["err"], kv["n"]))
+            elif m[0] == "probe":
+                if int(kv["err"]) != 0:
+                    bad = (i, "a credential is no longer decodable (err=%s) after a call that never reached the daemon" % kv["err"])
+        except Exception as ex:
+            bad = (i, "unparsable harness output (%r): %s" % (ex, l[:120]))
+    crashed = rc != 0 or len(out) != len(ops)
+    ctx.obligation("oracle", "stream %s-connect-backoff: %d calls with refused connects = the same calls without (result, connections, retry bytes)" % (name, len(ops)),
+                   bad is None and not crashed, (bad[1] if bad else "") + (err[-1200:] if crashed else ""))
+    if bad or crashed:
+        i = bad[0] if bad else len(out)
+        lo = max(0, i - 3)
+        ctx.violation("retry (%s): %s" % (name, bad[1] if bad else "implementation crashed / sanitizer report"),
+                      {"stream": name + "-connect-backoff", "build": "toy" if "toy" in name else "real", "ops": ops[lo:i + 1],
+                       "impl_output": out[i] if i < len(out) else err[-2000:]}, found_input=True)
 
 
 def replay(ctx):
